@@ -272,8 +272,8 @@ func (ex *Exec) assignTargets(fc *FuncContract, env *Env) (targets []assignTarge
 				// a package global
 				sp := ex.eng.Prog.Package(env.pkg)
 				if g, ok := sp.Members[x.Name].(*ssa.Global); ok {
-					targets = append(targets, assignTarget{heap: "G_" + sanitize(g.Pkg.Pkg.Name()+"_"+g.Name())})
-					em.heapSorts()["G_"+sanitize(g.Pkg.Pkg.Name()+"_"+g.Name())] = em.sortOf(deref(g.Type()))
+					targets = append(targets, assignTarget{heap: "G_" + sanitize(pkgQualifier(g.Pkg.Pkg)+"_"+g.Name())})
+					em.heapSorts()["G_"+sanitize(pkgQualifier(g.Pkg.Pkg)+"_"+g.Name())] = em.sortOf(deref(g.Type()))
 					continue
 				}
 				env.fail("assigns: unknown target %s", x.Name)
@@ -615,7 +615,7 @@ func (ex *Exec) frameCheck(st *State, p *Ptr, pc string, pos token.Pos) {
 		}
 	case rGlobal:
 		gl := p.Glob.(*ssa.Global)
-		if g, ok := ex.frameGoal("G_"+sanitize(gl.Pkg.Pkg.Name()+"_"+gl.Name()), ""); ok {
+		if g, ok := ex.frameGoal("G_"+sanitize(pkgQualifier(gl.Pkg.Pkg)+"_"+gl.Name()), ""); ok {
 			ex.oblige("frame", pc, g, pos, "")
 		}
 	case rBox:
